@@ -10,15 +10,21 @@ FUNCS = [RT + "BasicRayTracePath." + f for f in ("fresnel", "attenuation", "prop
 
 def setup(rep):
     runner.hash_functions(rep, FUNCS)
-    rep.min_obligations = 25
+    rep.min_obligations = 60
     rep.clause("fresnel-magnitude", "P", "|r_s|, |r_p| <= 1 on the real branch and exactly 1 under total internal reflection (complex "
                "amplitudes as pairs of reals) for gradient-index and uniform paths; unit coefficients for direct rays and turn-overs")
     rep.clause("attenuation-range", "P", "attenuation = exp(-|integral|) lies in (0,1]; the integrand of the numeric path is "
                "(ds/dz)/L_att(z,|f|) (depends on |f| only)")
     rep.clause("polarization-vectors", "P", "the two returned vectors are unit, mutually orthogonal and perpendicular to the received "
                "direction for every non-vertical emitted direction (all three path classes); vertical emission: known finding D10")
-    rep.clause("delay-linearity-energy", "N", "same-grid/tof delay, linearity in signal and polarization and the energy bound need the "
-               "array algebra of C05 composed with these contracts - not built for propagate() yet")
+    rep.clause("propagate", "P", "each returned signal is on the input grid delayed by tof, shares nothing with the (unchanged) input, "
+               "carries values * (polarization . u_s) resp. (polarization . u_p0) - linear in the signal and in the polarization - and is "
+               "filtered exactly once with force_real by attenuation(f) * Fresnel coefficient (gradient-index, uniform and layered "
+               "paths; attenuation_interpolation=None)")
+    rep.clause("energy-bound", "A", "output energy <= input energy follows from the propagate clause, |response| <= 1 "
+               "(attenuation-range, fresnel-magnitude), C05's passivity clause (Parseval, A5) and Bessel's inequality for the "
+               "orthonormal pair (u_s, u_p0) - the composition is not machine-checked")
+    rep.clause("attenuation-interpolation-grid", "N", "the log-spaced interpolation grid used when attenuation_interpolation is given")
     rep.clause("attenuation-monotone-in-f", "N", "needs monotonicity of every ice model's attenuation length in f through the quadrature")
     rep.clause("layered-transmission-energy", "N", "Fresnel transmission amplitudes may exceed 1; the energy statement needs impedances")
     rep.assume("A1, A2 (sqrt/sin/cos axioms), complex numbers modelled as pairs of reals")
